@@ -132,7 +132,16 @@ class Context:
                 "*": operator.mul,
                 "%": operator.mod,
             }
-            return ops[expr.op](a, b)
+            if expr.op not in ops:
+                raise SemanticError(
+                    f"Cannot evaluate operator {expr.op} in constant", expr.loc
+                )
+            try:
+                return ops[expr.op](a, b)
+            except ZeroDivisionError:
+                raise SemanticError(
+                    "Division by zero in constant expression", expr.loc
+                )
         elif isinstance(expr, ast.TypeCast):
             a = self.eval_const(expr.a)
             to_type = self.get_type(expr.to_type)
@@ -144,9 +153,16 @@ class Context:
                 return float(a)
             elif isinstance(to_type, ast.PointerType):
                 return int(a)
-            else:  # pragma: no cover
-                raise NotImplementedError(
-                    f"Casting to {expr.to_type} not implemented"
+            elif isinstance(to_type, ast.UnsignedIntegerType):
+                return int(a) & ((1 << to_type.bits) - 1)
+            elif isinstance(to_type, ast.SignedIntegerType):
+                value = int(a) & ((1 << to_type.bits) - 1)
+                if value >= (1 << (to_type.bits - 1)):
+                    value -= 1 << to_type.bits
+                return value
+            else:
+                raise SemanticError(
+                    f"Cannot cast constant to {to_type}", expr.loc
                 )
         elif isinstance(expr, ast.Identifier):
             target = self.resolve_symbol(expr)
@@ -189,7 +205,12 @@ class Context:
                 (64, True): ">q",
             }
         fmt = mapping[(bits, signed)]
-        return struct.pack(fmt, v)
+        try:
+            return struct.pack(fmt, v)
+        except struct.error:
+            raise SemanticError(
+                f"Value {v} does not fit a {bits} bits integer", None
+            )
 
     def pack_float(self, v, bits=None):
         if bits is None:
